@@ -25,6 +25,8 @@ var verifFmtCtxs = []verifFmtCtx{
 	{"// ", "\nvar x = 1", false},              // comment text
 	{"var x = [", "]", true},                   // list
 	{"var x = lambda: f(", ")", true},          // lambda function argument
+	{"var x = f(\n// c\n\n", "\n)", true},      // argument after a comment and an empty line
+	{"var x = f(\n// c\n\n/", "/\n)", false},   // regex argument after a comment and an empty line
 }
 
 // verifRoundTrip asserts the C13 obligations for one script text that parses.
